@@ -232,7 +232,10 @@ def forms(cf, cv, P, n):
     """library objects representing P in several projective scalings; for infinity (P is None): the INFINITY singleton and
     Jacobian points with y = 0 (the library's encoding of infinity), also as results of a negation"""
     if P is not None:
-        return [(z, jac(cf, cv, P, z, n)) for z in Z_SCALINGS(cv.p)]
+        # ... plus representations the library itself produces with UNREDUCED coordinates: the negation of a representation of -P
+        # (PointJacobi.__neg__ returns Y = -y without reducing it)
+        return [(z, jac(cf, cv, P, z, n)) for z in Z_SCALINGS(cv.p)] + [
+            ("neg%d" % z, -jac(cf, cv, cv.neg(P), z, n)) for z in (1, 2)]
     j1 = E.PointJacobi(cf, 0, 0, 1, n)
     j2 = E.PointJacobi(cf, 3, 0, 2, n)
     j3 = E.PointJacobi(cf, 5, 0, 0, n)
@@ -293,7 +296,7 @@ def run_case(ctx, case):
                     if aff(G1.mul_add(3, A0, 5)) != cv.mul(3, pts[0]) or aff(A0.mul_add(5, G1, 3)) != cv.mul(3, pts[0]):
                         return o.viol("jacobi|infinity-form|mul_add", "%s: mul_add with infinity in the form %s wrong" % (name, z1))
                 if P is not None:
-                    A = jac(cf, cv, P, z1, n)
+                    A = forms(cf, cv, P, n)[i1][1]
                     ops += 2
                     if aff(A.double()) != cv.add(P, P):
                         return o.viol("jacobi|double", "%s: double of %r(Z=%d) wrong" % (name, P, z1))
